@@ -235,15 +235,19 @@ def c07(tier, repo=None):
     probes = [("D5: addBranch re-types an inferred pass-through", "flow", 2, 0, dict(build.REPAIRED, FixD5=False), "Sound")]
     if tier == "quick":
         models = [("flow", 2, 0, ["AllOutcome", "Sound", "FrozenMaps"]), ("flown", 2, 0, ["AllOutcome", "Sound", "FrozenMaps"]),
-                  ("flowio", 3, 0, ["AllOutcome", "Sound", "FrozenMaps"])]
+                  ("flowio", 3, 0, ["AllOutcome", "Sound", "FrozenMaps"]), ("brshare", 3, 0, ["AllOutcome", "Sound", "FrozenMaps"], 3),
+                  ("sub", 3, 0, ["AllOutcome", "Sound", "FrozenMaps"])]
         fams = [dict(fam="flow", adds=2, post=0), dict(fam="flowend", adds=2, post=0), dict(fam="flown", adds=2, post=0), dict(fam="flowio", adds=3, post=0),
+                dict(fam="brshare", adds=3, post=0, br=3), dict(fam="sub", adds=3, post=0),
                 dict(fam="flow", adds=4, post=0, br=2, simulate="num=1200", depth=60, limit=3000),
                 dict(fam="flow2", adds=5, post=0, br=2, simulate="num=300", depth=70, limit=3000)]
-        limit = 45000
+        limit = 70000
     else:
         models = [("flow", 2, 0, ["AllOutcome", "Sound", "FrozenMaps"]), ("flowend", 2, 0, ["AllOutcome", "Sound", "FrozenMaps"]),
-                  ("flown", 2, 0, ["AllOutcome", "Sound", "FrozenMaps"]), ("flowio", 3, 0, ["AllOutcome", "Sound", "FrozenMaps"])]
+                  ("flown", 2, 0, ["AllOutcome", "Sound", "FrozenMaps"]), ("flowio", 3, 0, ["AllOutcome", "Sound", "FrozenMaps"]),
+                  ("brshare", 3, 0, ["AllOutcome", "Sound", "FrozenMaps"], 3), ("sub", 4, 0, ["AllOutcome", "Sound", "FrozenMaps"])]
         fams = [dict(fam="flow", adds=2, post=0), dict(fam="flowend", adds=2, post=0), dict(fam="flown", adds=2, post=0), dict(fam="flowio", adds=3, post=0),
+                dict(fam="brshare", adds=3, post=0, br=3), dict(fam="sub", adds=4, post=0), dict(fam="brshare", adds=5, post=0, br=5, simulate="num=6000", depth=80),
                 dict(fam="flowio", adds=5, post=0, simulate="num=8000", depth=80), dict(fam="flown", adds=4, post=0, br=2, simulate="num=8000", depth=70),
                 dict(fam="flow", adds=3, post=0, simulate="num=20000", depth=60),
                 dict(fam="flowend", adds=4, post=0, br=2, simulate="num=12000", depth=70),
